@@ -507,6 +507,44 @@ func runC08(c *Ctx) {
 					}
 				}
 			}
+			// a goroutine body never returns, so the return-based pairing says nothing about its loop: an
+			// acquisition must not be reachable again (next iteration) without an intervening release of the
+			// same lock, and no blocking operation may be reached with it still held (may-analysis; the
+			// must-lockset used elsewhere forgets a lock held on only one of the edges into the loop header)
+			for in, op := range li.Ops {
+				if !op.acq {
+					continue
+				}
+				isRelease := func(x ssa.Instruction) bool {
+					o, isOp := li.Ops[x]
+					return isOp && !o.acq && o.class == op.class && o.base == op.base
+				}
+				if _, hasDefer := defers[op.token()]; hasDefer {
+					continue
+				}
+				again, path := reach(after(in), func(x ssa.Instruction) bool {
+					if x == in {
+						return true
+					}
+					switch y := x.(type) {
+					case *ssa.Select:
+						return y.Blocking
+					case *ssa.Send:
+						return true
+					case *ssa.UnOp:
+						return y.Op == token.ARROW
+					}
+					return false
+				}, isRelease, nil)
+				if again != nil {
+					ok = false
+					what := "a blocking channel operation is reached"
+					if again == in {
+						what = "the same lock is acquired again (next iteration)"
+					}
+					L.Fail("R-C08-PAIR", cons, op.token()+" is not released on a path on which "+what+" (block path "+pathString(path)+"): the goroutine deadlocks on itself / every other user of the mutex stalls", in.Pos())
+				}
+			}
 			if ok {
 				L.Ok("R-C08-PAIR", cons, fmt.Sprintf("%d lock operation(s) paired on every path", len(li.Ops)), fn.Pos())
 			}
